@@ -140,7 +140,7 @@ func verify(argv []string) int {
 					has = true
 				}
 			}
-			for _, at := range fc.Ats {
+			for _, at := range append(append([]vc.AtClause{}, fc.Ats...), fc.NoCalls...) {
 				if at.C.Prop == *prop {
 					has = true
 				}
